@@ -185,6 +185,18 @@ def run(ctx, mode):
                     key = "bmf-variable-bound-exceeded"
             if solver == "bmf" and "over capacity [" in v and "over capacity []" not in v:
                 key = "bmf-capacity-exceeded"
+            if solver == "maxmin" and v.endswith(" precision-model-agrees") and "over capacity []" in v and "values [" in v:
+                # no capacity exceeded, a variable with a negative rate, reproduced by the model at the configured precision:
+                # double_equals(min_bound, bound*penalty) matched a variable without bound (bound_ = -1), value_ = -1
+                # (theorem maxmin_var_bounds_eps_counterexample)
+                vals = v.split("values [")[1].split("]")[0].replace(",", " ").split()
+                if vals and any(x.startswith("-") for x in vals):
+                    key = "maxmin-precision-bound-test-unbounded-variable"
+            if solver == "maxmin" and v.endswith(" precision-model-agrees") and "over capacity []" not in v:
+                # the model run at the configured precision gives the same overloaded answer and the exact-arithmetic run is
+                # feasible: a constraint was dropped from the light table by double_update's clamping while it still had
+                # unfixed consumers (theorem maxmin_feasible_eps_counterexample)
+                key = "maxmin-precision-drops-constraint"
             if solver == "fairbottleneck" and "over capacity" in v:
                 fat = fatpipe_overloaded(q)
                 bad = [int(x) for x in v.split("over capacity [")[1].split("]")[0].replace(",", " ").split()]
